@@ -932,7 +932,7 @@ theorem C19_text_de (enc : Enc) (ty : Ty) (ts : List RTok) (n : Nat) (v v' : Val
 
 /-! ### the same at the level of documents: the last top-level fields dropped -/
 
-theorem lexFields_append : ∀ (a b : List (Bytes × Op × Node)), lexFields (a ++ b) = lexFields a ++ lexFields b
+theorem lexFields_append : ∀ (a b : List (Key × Op × Node)), lexFields (a ++ b) = lexFields a ++ lexFields b
   | [], b => by simp [lexFields]
   | (k, o, v) :: r, b => by simp [lexFields, lexFields_append r b]
 
@@ -943,7 +943,7 @@ theorem lexemes_take (d : Doc) (k : Nat) :
     simp only [lexemes]; rw [← lexFields_append, List.take_append_drop]
   rw [h]; simp
 
-theorem wfFields_take : ∀ (d : List (Bytes × Op × Node)) (k : Nat), wfFields d = true → wfFields (d.take k) = true
+theorem wfFields_take : ∀ (d : List (Key × Op × Node)) (k : Nat), wfFields d = true → wfFields (d.take k) = true
   | [], k, _ => by simp [wfFields]
   | f :: r, 0, _ => by simp [wfFields]
   | (k0, o, v) :: r, k + 1, h => by
